@@ -291,9 +291,14 @@ type vBackend struct {
 	sent   []string
 	fail   bool
 	closed int
+	// afterClose counts what the backend was asked to send after the pool had closed it
+	afterClose int
 }
 
 func (b *vBackend) Send(msg *Message) error {
+	if b.closed > 0 {
+		b.afterClose++
+	}
 	if b.fail {
 		return errVBackend
 	}
